@@ -15,6 +15,7 @@ import (
 
 	_ "github.com/wader/fq/format/all"
 	"github.com/wader/fq/internal/bitiox"
+	"github.com/wader/fq/internal/gojqx"
 	"github.com/wader/fq/internal/verifharness/hlib"
 	"github.com/wader/fq/pkg/bitio"
 	"github.com/wader/fq/pkg/interp"
@@ -383,6 +384,7 @@ type parsed struct {
 	expr   string
 	input  any
 	render func(any) string
+	direct func() string // evaluated by a direct Go call instead of a jq expression
 }
 
 // parseOp: op text -> jq expression (group key), Go input value, result renderer
@@ -409,15 +411,15 @@ func parseOp(op string) (p parsed, err error) {
 			// to_radix with a base below 2 used not to terminate: keep these in a batch of their own
 			pre = `. as [$b,$n] | "base<2" as $_ | `
 		}
-		return parsed{pre + rtExpr("$n | to_radix($b)", "from_radix($b)"), []any{b, n}, rtObs}, nil
+		return parsed{expr: pre + rtExpr("$n | to_radix($b)", "from_radix($b)"), input: []any{b, n}, render: rtObs}, nil
 	case name == "radix" && dir == "dec" && len(ws) == 4:
 		b, err1 := parseInt(ws[2])
 		if err1 != nil {
 			return p, err1
 		}
-		return parsed{`. as [$b,$t] | ` + decExpr("$t | from_radix($b)"), []any{b, string(hlib.UnHex(ws[3]))}, decObs}, nil
+		return parsed{expr: `. as [$b,$t] | ` + decExpr("$t | from_radix($b)"), input: []any{b, string(hlib.UnHex(ws[3]))}, render: decObs}, nil
 	case name == "json" && dir == "rt" && len(ws) == 3:
-		return parsed{rtExpr("tojson", "fromjson | tovalue"), parseWire(ws[2]), jsonRtObs}, nil
+		return parsed{expr: rtExpr("tojson", "fromjson | tovalue"), input: parseWire(ws[2]), render: jsonRtObs}, nil
 	case (name == "jsonind" || name == "jqlitind") && dir == "rt" && len(ws) == 4:
 		n, err1 := parseInt(ws[2])
 		if err1 != nil {
@@ -427,13 +429,58 @@ func parseOp(op string) (p parsed, err error) {
 		if name == "jqlitind" {
 			to, from = "$x | to_jq({indent: $n})", "from_jq"
 		}
-		return parsed{`. as [$n,$x] | ` + rtExpr(to, from), []any{n, parseWire(ws[3])}, jsonRtObs}, nil
+		return parsed{expr: `. as [$n,$x] | ` + rtExpr(to, from), input: []any{n, parseWire(ws[3])}, render: jsonRtObs}, nil
+	case name == "normint" && len(ws) == 3:
+		// gojqx.ToGoJQValue on a Go integer of the given static type: `int:<v>` or `big:<v>`
+		kind, dec := ws[1], ws[2]
+		n, ok := new(big.Int).SetString(dec, 10)
+		if !ok {
+			return p, fmt.Errorf("bad op %q", op)
+		}
+		var in any
+		switch kind {
+		case "int":
+			if !n.IsInt64() {
+				return p, fmt.Errorf("bad op %q", op)
+			}
+			in = int(n.Int64())
+		case "int64":
+			if !n.IsInt64() {
+				return p, fmt.Errorf("bad op %q", op)
+			}
+			in = n.Int64()
+		case "uint64":
+			if !n.IsUint64() {
+				return p, fmt.Errorf("bad op %q", op)
+			}
+			in = n.Uint64()
+		case "big":
+			in = n
+		default:
+			return p, fmt.Errorf("bad op %q", op)
+		}
+		return parsed{direct: func() string {
+			r, _ := hlib.Catch(func() string {
+				v, err := gojqx.ToGoJQValue(in)
+				if err != nil {
+					return "err"
+				}
+				switch v := v.(type) {
+				case int:
+					return fmt.Sprintf("int:%d", v)
+				case *big.Int:
+					return "big:" + v.String()
+				}
+				return fmt.Sprintf("?%T", v)
+			})
+			return r
+		}}, nil
 	case name == "csv" && dir == "rt" && len(ws) == 3:
-		return parsed{rtExpr("to_csv", "from_csv | tovalue"), parseWire(ws[2]), jsonRtObs}, nil
+		return parsed{expr: rtExpr("to_csv", "from_csv | tovalue"), input: parseWire(ws[2]), render: jsonRtObs}, nil
 	case name == "csv" && dir == "dec" && len(ws) == 3:
-		return parsed{decExpr("from_csv | tovalue"), string(hlib.UnHex(ws[2])), jsonDecObs}, nil
+		return parsed{expr: decExpr("from_csv | tovalue"), input: string(hlib.UnHex(ws[2])), render: jsonDecObs}, nil
 	case name == "xmlarr" && dir == "rt" && len(ws) == 3:
-		return parsed{decExpr("to_xml | from_xml({array: true}) | tovalue"), parseWire(ws[2]), jsonDecObs}, nil
+		return parsed{expr: decExpr("to_xml | from_xml({array: true}) | tovalue"), input: parseWire(ws[2]), render: jsonDecObs}, nil
 	case name == "xmlseq" && dir == "rt" && len(ws) == 3:
 		var sb strings.Builder
 		sb.WriteString("<r>")
@@ -443,15 +490,15 @@ func parseOp(op string) (p parsed, err error) {
 			}
 		}
 		sb.WriteString("</r>")
-		return parsed{"try (from_xml({seq: true}) | tovalue | [., (to_xml | from_xml({array: true}) | tovalue)]) catch []", sb.String(), xmlSeqObs}, nil
+		return parsed{expr: "try (from_xml({seq: true}) | tovalue | [., (to_xml | from_xml({array: true}) | tovalue)]) catch []", input: sb.String(), render: xmlSeqObs}, nil
 	case name == "urlquery" && dir == "rt" && len(ws) == 3:
-		return parsed{rtExpr("to_urlquery", "from_urlquery"), parseWire(ws[2]), jsonRtObs}, nil
+		return parsed{expr: rtExpr("to_urlquery", "from_urlquery"), input: parseWire(ws[2]), render: jsonRtObs}, nil
 	case name == "urlquery" && dir == "dec" && len(ws) == 3:
-		return parsed{decExpr("from_urlquery"), string(hlib.UnHex(ws[2])), jsonDecObs}, nil
+		return parsed{expr: decExpr("from_urlquery"), input: string(hlib.UnHex(ws[2])), render: jsonDecObs}, nil
 	case name == "jqlit" && dir == "rt" && len(ws) == 3:
-		return parsed{rtExpr("to_jq", "from_jq"), parseWire(ws[2]), jsonRtObs}, nil
+		return parsed{expr: rtExpr("to_jq", "from_jq"), input: parseWire(ws[2]), render: jsonRtObs}, nil
 	case name == "json" && dir == "dec" && len(ws) == 3:
-		return parsed{decExpr("fromjson | tovalue"), string(hlib.UnHex(ws[2])), jsonDecObs}, nil
+		return parsed{expr: decExpr("fromjson | tovalue"), input: string(hlib.UnHex(ws[2])), render: jsonDecObs}, nil
 	case dir == "hash" && len(ws) == 3:
 		fn, ok := hashes[name]
 		if !ok {
@@ -461,7 +508,7 @@ func parseOp(op string) (p parsed, err error) {
 		if err != nil {
 			return p, err
 		}
-		return parsed{decExpr(fn), in, decObs}, nil
+		return parsed{expr: decExpr(fn), input: in, render: decObs}, nil
 	}
 	c, ok := codecs[name]
 	if !ok || len(ws) != 3 {
@@ -478,14 +525,14 @@ func parseOp(op string) (p parsed, err error) {
 		} else {
 			in = string(hlib.UnHex(ws[2]))
 		}
-		return parsed{rtExpr(c.to, c.from), in, rtObs}, nil
+		return parsed{expr: rtExpr(c.to, c.from), input: in, render: rtObs}, nil
 	case "dec":
 		b := hlib.UnHex(ws[2])
 		var in any = string(b)
 		if decTakesBinary[name] {
 			in = mkBinary(b, len(b)*8)
 		}
-		return parsed{decExpr(c.from), in, decObs}, nil
+		return parsed{expr: decExpr(c.from), input: in, render: decObs}, nil
 	}
 	return p, fmt.Errorf("bad op %q", op)
 }
@@ -510,6 +557,10 @@ func (e *evaluator) evalOps(o *hlib.Out, ops []string) {
 			continue
 		}
 		ps[i] = p
+		if p.direct != nil {
+			obs[i] = p.direct()
+			continue
+		}
 		g := groups[p.expr]
 		if g == nil {
 			g = &group{}
